@@ -9,6 +9,7 @@ import Nq.Token822
 import Nq.SmtpAddr
 
 namespace Nq.Lemmas.C17
+set_option maxRecDepth 20000
 open Nq Nq.Quote Nq.Token822
 
 /-- a Boolean predicate that holds for the 256 byte values holds for every byte -/
@@ -51,6 +52,10 @@ theorem dot_at_facts :
 /-- the bytes `doit()` escapes are exactly CR LF `"` `\` -/
 theorem quoteEsc_spec : ∀ c, (Gen.quoteEsc.contains c == (c == CR || c == LF || c == Quote.DQ || c == Quote.BSL)) = true :=
   forall_byte (fun c => Gen.quoteEsc.contains c == (c == CR || c == LF || c == Quote.DQ || c == Quote.BSL)) (by decide)
+
+/-- white space (SP TAB CR LF) is no token and ends an atom -/
+theorem ws_facts : ∀ c, (!isWs c || ((specialTok c).isNone && !atomok c)) = true :=
+  forall_byte (fun c => !isWs c || ((specialTok c).isNone && !atomok c)) (by decide)
 
 theorem stepTop_dq : stepTop Token822.DQ = (.quote [] false, []) := by decide
 theorem stepTop_lbrk : stepTop LBRK = (.lit [] false, []) := by decide
